@@ -13,6 +13,9 @@ CHECKS["C05"] = dict(cat="proof", tech="Coq proof (induction over chunk lists) t
 CHECKS["C04"] = dict(cat="proof", tech="Coq refinement proof: literal checkSequenceNumber loop == modular window rule (induction over the ring walk, all k / occupancies / wrap alignments / N(R)); extracted model vs both C copies; native exhaustive sweeps",
    text="coq/Properties/C04.v: for every k-buffer state satisfying the ring invariant (c frames outstanding ending at the next N(S), any rotation, any alignment to the 32767->0 wrap) and every N(R), the transcribed checkSequenceNumber returns true exactly when (N(R) - (V(S) - c)) mod 2^15 <= c, releases exactly that many frames, changes nothing on rejection and never exhausts its static loop bound; push/is_full keep the invariant and along every send/ack history at most k frames are outstanding. The extracted functions are compared with both C copies on generated ring states; the C copies are also swept natively (every rotation x occupancy x 10 alignments x all 32768 N(R) per k) against the modular rule; a trace scenario checks deferral and closing on a bad N(R) on the real server.",
    note="Trusted: Coq kernel; hand transcription Apci/KBuf.v (validated by correspondence each run). The client-side 'send API reports failure while full' clause is exercised by the client harness of C03, the server-side deferral by the trace scenario here and by C13.", ref="7.4")
+CHECKS["C03"] = dict(cat="proof", tech="Coq proofs about the APDU byte formulas and the sequence counters along arbitrary event histories (induction over event lists, counters start anywhere so the wrap is inside the quantifier); real traces of server and client replayed through the extracted model as an observer; Python oracle on every octet written",
+   text="coq/Properties/C03.v: the receiver's decoding inverts the sender's byte formulas for all N(S), N(R) in 0..32767; every frame produced for ASDUs of 1..249 octets is a well-formed APDU; along any history of send-I / send-S / send-U / accept events the n-th I-frame carries N(S) = vs0+n-1 mod 2^15 and every N(R) equals vr0 + accepted-so-far mod 2^15. For every connection of every generated trace of the REAL server (threadless loop) and REAL client (own thread, released one iteration at a time) the event list is extracted and the model must regenerate the exact octets; an independent Python parser checks well-formedness and both numbering clauses on everything written, with counters started at 0, 1, 32760..32767 and random values.",
+   note="Trusted: Coq kernel; Apci/Frame.v transcription of sendIMessage/_sendSMessage/T104Frame_prepareToSend/sendSMessage (validated by reproducing the octets of every trace); the model observes events, the scheduling decisions themselves are the subject of C04/C07/C11/C13. Threaded server loop is not driven here (threadless only); the client runs its real thread.", ref="7.3")
 NA = {}
 def main():
     checks = []
